@@ -3,7 +3,11 @@ from .. import vmfamily
 
 
 def clause(v, rec):
-    return v["c05"] if v["c05"] not in ("ok", "na", "refused", "na-cyclic") else None
+    if v["c05"] in ("ok", "na", "refused", "na-cyclic"):
+        return None
+    if v["c05"] == "exec-failed":
+        return "exec-failed:" + rec["fick"]["run"]["exc"].split(":")[0]
+    return v["c05"]
 
 
 def run(ctx):
